@@ -1689,8 +1689,11 @@ class PyCdlib:
             linked_inodes.add(id(ino))
 
         if self.enhanced_vd is not None:
+            # The Enhanced Volume Descriptor shares the directory tree of the
+            # PVD, so its root directory record describes the same extent.
             loc = self.pvd.root_directory_record().extent_location()
             self.enhanced_vd.root_directory_record().set_data_location(loc, loc)
+            self.enhanced_vd.root_directory_record().data_length = self.pvd.root_directory_record().data_length
 
         if self.udf_anchors:
             # The last anchor has to live in the last sector of the volume,
